@@ -208,8 +208,8 @@ def run(prop, tier):
         if len(full) > nmax:
             # histories that re-add a removed compartment or parameter need two cooperating operations: a plain sample of the histories
             # rarely holds one, so a share of the sample is reserved for them
-            readd = [h for h in full if any(op in ("add_comp", "add_par") for op, _ in h["hist"])]
-            rest = [h for h in full if not any(op in ("add_comp", "add_par") for op, _ in h["hist"])]
+            readd = [h for h in full if any(op in ("add_comp", "add_par") for op, _, _ in h["hist"])]
+            rest = [h for h in full if not any(op in ("add_comp", "add_par") for op, _, _ in h["hist"])]
             readd = [readd[i] for i in rng.permutation(len(readd))[: nmax // 4]]
             full = readd + [rest[i] for i in rng.permutation(len(rest))[: nmax - len(readd)]]
             cov["histories_readding"] = cov.get("histories_readding", 0) + len(readd)
@@ -219,7 +219,11 @@ def run(prop, tier):
             pg = sc.dcp(pg0)
             D = sc.dcp(P.data)
             ok = True
-            for (op, arg) in h["hist"]:
+            for (op, arg, by) in h["hist"]:
+                code_ = arg
+                if by == "label":  # (Books.Bys: the removal is called with the full name instead of the code name)
+                    coll_ = dict(remove_pop=pg.pops, remove_par=pg.pars, remove_comp=pg.comps).get(op)
+                    arg = pg.programs[arg].label if op == "remove_program" else coll_[arg]["label"]
                 try:
                     if op == "copy":
                         pg = pg.copy() if hasattr(pg, "copy") else sc.dcp(pg)
@@ -232,7 +236,7 @@ def run(prop, tier):
                         pg.add_pop(arg, "New pop")
                     elif op == "remove_pop":
                         pg.remove_pop(arg)
-                        D.remove_pop(arg)
+                        D.remove_pop(code_)
                     elif op == "add_program":
                         pg.add_program(arg, "New prog")
                     elif op == "remove_program":
@@ -613,7 +617,7 @@ def run(prop, tier):
         d = index[rid_]
         lab_ = d["label"]
         if "history" in lab_:
-            ops = [o for o, _ in lab_["history"]]
+            ops = [o[0] for o in lab_["history"]]
             V.violation("C16 %s %s after %s" % (clause, d["what"].split(" after")[0], ops[-1] if clause == "Content" else "+".join(sorted(set(ops)))), dict(clause=clause, **d))
         else:
             V.violation("C16 %s %s" % (clause, lab_["what"]), dict(clause=clause, **d))
